@@ -24,7 +24,7 @@
   * `id_fail_iff_hedge`: **ID refuses exactly when a hedge exists**; `id_ok_iff_no_hedge`: it returns an estimand exactly
     when none exists.
 
-  Not mechanised (literature, Shpitser–Pearl 2006 Thm 4): "a hedge exists ⇒ the effect is not identifiable from P(v)"
+  Mechanised in Y0/Props/C02Complete.lean (Shpitser–Pearl 2006 Thm 4, `hedge_not_identifiable`): "a hedge exists ⇒ the effect is not identifiable from P(v)"
   (two models agreeing on P(v) and differing on P_x(y)).  The other half of "refuses exactly when not identifiable" IS a
   theorem: an estimand is returned only when the effect is identifiable, with that estimand (`id_sound`, C01).
   -- R: "leaves the caller's graph and query objects unchanged" is a Python-runtime clause (the model is pure).
